@@ -408,8 +408,261 @@ Proof.
 Qed.
 
 (* ================================================================== *)
-(* Part D: sign symmetry                                               *)
+(* Part D: monotonicity                                                *)
 (* ================================================================== *)
 
-Lemma f64_of_Z_finite_small z : (Z.abs z <= 2 ^ 64)%Z -> is_finite 53 1024 (f64_of_Z z) = true.
-Proof. intros H. exact (proj1 (proj2 (f64_of_Z_round z H))). Qed.
+(* the value of an accepted string:  sign * G i k  *)
+Definition f64_mag (i k : N) : R :=
+  if k =? 0 then IZR (Z.of_N i) else rnd64 (rnd64 (IZR (Z.of_N i)) / IZR (10 ^ Z.of_N k)).
+
+Lemma to_f64_value d neg i k r :
+  f64_decimal d neg i k -> to_f64 d = Ok r -> B2R64 r = ((if neg then -1 else 1) * f64_mag i k)%R.
+Proof.
+  intros Hdec H. destruct (to_f64_decimal d neg i k r Hdec H) as [Ha ->].
+  unfold f64_accepts, f64_mag in *. destruct (k =? 0).
+  - set (v := (if neg then - Z.of_N i else Z.of_N i)%Z).
+    assert (Hv : (Z.abs v <= F64_GUARD)%Z) by (unfold F64_GUARD, v; destruct neg; lia).
+    rewrite (proj1 (int_value_exact v Hv)). unfold v. destruct neg; [rewrite opp_IZR|]; ring.
+  - destruct Ha as [Hi Hk]. exact (proj2 (frac_value_spec neg i k Hi Hk)).
+Qed.
+
+Lemma f64_mag_mono i i' k : i <= i' -> (f64_mag i k <= f64_mag i' k)%R.
+Proof.
+  intros H. assert (Hz : (IZR (Z.of_N i) <= IZR (Z.of_N i'))%R) by (apply IZR_le; lia).
+  unfold f64_mag. destruct (k =? 0); [exact Hz|].
+  apply round_le; auto with typeclass_instances.
+  pose proof (pow10_ge1 k) as Hy. unfold Rdiv. apply Rmult_le_compat_r; [left; apply Rinv_0_lt_compat; lra|].
+  apply round_le; auto with typeclass_instances.
+Qed.
+
+Lemma f64_mag_0 k : f64_mag 0 k = 0%R.
+Proof.
+  unfold f64_mag. destruct (k =? 0); [reflexivity|]. cbn [Z.of_N].
+  rewrite round_0 by auto with typeclass_instances. unfold Rdiv. rewrite Rmult_0_l.
+  apply round_0; auto with typeclass_instances.
+Qed.
+
+Lemma f64_mag_nonneg i k : (0 <= f64_mag i k)%R.
+Proof. rewrite <- (f64_mag_0 k). apply f64_mag_mono. lia. Qed.
+
+(* same number of fractional digits: the conversion is monotone in the decimal value (signs included) *)
+Theorem to_f64_monotone_same_scale d d' neg neg' i i' k r r' :
+  f64_decimal d neg i k -> f64_decimal d' neg' i' k -> to_f64 d = Ok r -> to_f64 d' = Ok r' ->
+  (decimal_value neg i k <= decimal_value neg' i' k)%R -> (B2R64 r <= B2R64 r')%R.
+Proof.
+  intros Hd Hd' H H' Hle.
+  rewrite (to_f64_value d neg i k r Hd H), (to_f64_value d' neg' i' k r' Hd' H').
+  unfold decimal_value in Hle. pose proof (pow10_ge1 k) as Hy.
+  assert (Hs : ((if neg then -1 else 1) * IZR (Z.of_N i) <= (if neg' then -1 else 1) * IZR (Z.of_N i'))%R).
+  { apply Rmult_le_reg_r with (/ IZR (10 ^ Z.of_N k))%R; [apply Rinv_0_lt_compat; lra|exact Hle]. }
+  pose proof (f64_mag_nonneg i k) as H0. pose proof (f64_mag_nonneg i' k) as H0'.
+  assert (Hi0 : (0 <= IZR (Z.of_N i))%R) by (apply IZR_le; lia).
+  assert (Hi0' : (0 <= IZR (Z.of_N i'))%R) by (apply IZR_le; lia).
+  destruct neg, neg'.
+  - assert (i' <= i) by (apply N2Z.inj_le, le_IZR; lra). pose proof (f64_mag_mono i' i k H1). lra.
+  - lra.
+  - assert (Hz : i = 0 /\ i' = 0).
+    { assert (IZR (Z.of_N i) = 0%R) by lra. assert (IZR (Z.of_N i') = 0%R) by lra.
+      apply eq_IZR in H1, H2. lia. }
+    destruct Hz as [-> ->]. rewrite f64_mag_0. lra.
+  - assert (i <= i') by (apply N2Z.inj_le, le_IZR; lra). pose proof (f64_mag_mono i i' k H1). lra.
+Qed.
+
+(* digit integers below 2^53 (any numbers of fractional digits, integers included): monotone, because both
+   results are the correctly rounded decimal values *)
+Theorem to_f64_monotone_small d d' neg neg' i i' k k' r r' :
+  f64_decimal d neg i k -> f64_decimal d' neg' i' k' -> to_f64 d = Ok r -> to_f64 d' = Ok r' ->
+  i < 2 ^ 53 -> i' < 2 ^ 53 ->
+  (decimal_value neg i k <= decimal_value neg' i' k')%R -> (B2R64 r <= B2R64 r')%R.
+Proof.
+  intros Hd Hd' H H' Hi Hi' Hle.
+  destruct (to_f64_numeric d neg i k r Hd H) as (_ & _ & Hc & _).
+  destruct (to_f64_numeric d' neg' i' k' r' Hd' H') as (_ & _ & Hc' & _).
+  rewrite (Hc Hi), (Hc' Hi').
+  apply round_le; auto with typeclass_instances.
+Qed.
+
+(* ================================================================== *)
+(* Part E: sign symmetry                                               *)
+(* ================================================================== *)
+
+Lemma finite_not_nan (x : binary64) : is_finite 53 1024 x = true -> is_nan 53 1024 x = false.
+Proof. destruct x; cbn; congruence. Qed.
+
+Lemma f64_of_Z_sign z : (Z.abs z <= 2 ^ 64)%Z -> z <> 0%Z -> Bsign 53 1024 (f64_of_Z z) = (z <? 0)%Z.
+Proof.
+  intros Hb Hz. destruct (f64_of_Z_round z Hb) as (Hv & _ & Hbd). unfold f64_of_Z in *.
+  pose proof (binary_normalize_correct 53 1024 (@eq_refl _ Lt) (@eq_refl _ Lt) mode_NE z 0 false) as H.
+  assert (HF : F2R (Float radix2 z 0) = IZR z) by (unfold F2R; cbn [Fnum Fexp bpow]; lra).
+  rewrite HF in H.
+  assert (Hbd' : (Rabs (rnd64 (IZR z)) <= IZR (2 ^ 64))%R) by (rewrite <- Hv; exact Hbd).
+  rewrite Rlt_bool_true in H.
+  - destruct H as (_ & _ & ->).
+    destruct (Z.ltb_spec z 0) as [Hl|Hl].
+    + rewrite Rcompare_Lt; [reflexivity|]. apply IZR_lt. exact Hl.
+    + rewrite Rcompare_Gt; [reflexivity|]. apply IZR_lt. lia.
+  - eapply Rle_lt_trans; [exact Hbd'|]. rewrite bpow1024. apply IZR_lt. reflexivity.
+Qed.
+
+(* integers: f64 of -z is the negation of f64 of z, for z <> 0 *)
+Lemma f64_of_Z_opp z : (Z.abs z <= 2 ^ 64)%Z -> z <> 0%Z -> f64_of_Z (- z) = b64_opp (f64_of_Z z).
+Proof.
+  intros Hb Hz. assert (Hb' : (Z.abs (- z) <= 2 ^ 64)%Z) by lia.
+  destruct (f64_of_Z_round z Hb) as (Hv & Hf & _). destruct (f64_of_Z_round (- z) Hb') as (Hv' & Hf' & _).
+  unfold b64_opp. apply B2R_Bsign_inj.
+  - exact Hf'.
+  - rewrite is_finite_Bopp. exact Hf.
+  - rewrite B2R_Bopp, Hv, Hv', opp_IZR. cbn [round_mode]. apply round_NE_opp.
+  - rewrite Bsign_Bopp by (apply finite_not_nan; exact Hf).
+    rewrite !f64_of_Z_sign by (auto; lia).
+    destruct (Z.ltb_spec (- z) 0), (Z.ltb_spec z 0); try reflexivity; lia.
+Qed.
+
+(* fractions: the sign is applied by an exact multiplication by +-1.0 *)
+Lemma frac_value_sign neg i k :
+  (i < U64_LIM)%N -> (k <= 22)%N ->
+  Bsign 53 1024 (frac_value neg i k) = xorb neg (Bsign 53 1024 (f64_div (f64_of_Z (Z.of_N i)) (pow10_f64 k))).
+Proof.
+  intros Hi Hk. pose proof (frac_value_finite neg i k Hi Hk) as Hfin.
+  unfold frac_value, f64_mul, b64_mult in *.
+  set (dv := f64_div (f64_of_Z (Z.of_N i)) (pow10_f64 k)) in *.
+  set (sz := if neg then (-1)%Z else 1%Z) in *.
+  assert (Hsz : (Z.abs sz < 2 ^ 53)%Z) by (destruct neg; reflexivity).
+  destruct (f64_of_Z_exact sz (format_small sz Hsz) ltac:(destruct neg; apply Zle_bool_imp_le; vm_compute; reflexivity)) as (Hs & Hsf).
+  assert (Hss : Bsign 53 1024 (f64_of_Z sz) = neg) by (destruct neg; vm_compute; reflexivity).
+  set (s := f64_of_Z sz) in *.
+  pose proof (Bmult_correct 53 1024 (@eq_refl _ Lt) (@eq_refl _ Lt) binop_nan_pl64 mode_NE s dv) as Hm.
+  assert (Hprod : generic_format radix2 fexp64 (B2R64 s * B2R64 dv)).
+  { rewrite Hs. destruct neg; unfold sz.
+    - replace (IZR (-1) * B2R64 dv)%R with (- B2R64 dv)%R by lra. apply generic_format_opp. apply generic_format_B2R.
+    - rewrite Rmult_1_l. apply generic_format_B2R. }
+  rewrite round_generic in Hm by (auto with typeclass_instances).
+  rewrite Rlt_bool_true in Hm.
+  - destruct Hm as (_ & _ & Hsign). rewrite <- Hss. apply Hsign. apply finite_not_nan. exact Hfin.
+  - rewrite Rabs_mult, Hs. replace (Rabs (IZR sz)) with 1%R.
+    + rewrite Rmult_1_l. apply abs_B2R_lt_emax.
+    + destruct neg; unfold sz; [rewrite Rabs_left; lra|rewrite Rabs_pos_eq; lra].
+Qed.
+
+Theorem frac_value_opp i k :
+  (i < U64_LIM)%N -> (k <= 22)%N -> frac_value true i k = b64_opp (frac_value false i k).
+Proof.
+  intros Hi Hk.
+  destruct (frac_value_spec true i k Hi Hk) as (Hft & Hvt). destruct (frac_value_spec false i k Hi Hk) as (Hff & Hvf).
+  unfold b64_opp. apply B2R_Bsign_inj.
+  - exact Hft.
+  - rewrite is_finite_Bopp. exact Hff.
+  - rewrite B2R_Bopp, Hvt, Hvf. ring.
+  - rewrite Bsign_Bopp by (apply finite_not_nan; exact Hff).
+    rewrite !frac_value_sign by assumption. cbn [xorb]. now destruct (Bsign _ _ _).
+Qed.
+
+Lemma f64_decimal_neg d i k : f64_decimal d false i k -> f64_decimal (45 :: d) true i k.
+Proof.
+  intros H. inversion H; subst; cbn [sgn app].
+  - exact (DecInt true c ds H0 H1).
+  - exact (DecFrac true c ds fs H0 H1 H2 H3).
+  - exact (DecDot true fs H0 H1).
+Qed.
+
+(* prefixing '-' to an accepted unsigned string: accepted again, the value is negated; and it is the IEEE
+   negation (sign bit flipped) except for the integer zero: "-0" converts to +0.0 (the i64 path), while
+   "-0.0" and "-.0" convert to -0.0 *)
+Theorem to_f64_neg_symmetry d i k r :
+  f64_decimal d false i k -> to_f64 d = Ok r ->
+  exists r', to_f64 (45 :: d) = Ok r' /\ B2R64 r' = (- B2R64 r)%R /\
+             (k <> 0 \/ i <> 0 -> r' = b64_opp r).
+Proof.
+  intros Hdec H. pose proof (f64_decimal_neg d i k Hdec) as Hdec'.
+  destruct (to_f64_decimal d false i k r Hdec H) as [Ha Hr].
+  destruct (to_f64_decimal_conv (45 :: d) true i k Hdec' Ha) as [r' H'].
+  exists r'. split; [exact H'|].
+  split.
+  - rewrite (to_f64_value _ _ _ _ _ Hdec' H'), (to_f64_value _ _ _ _ _ Hdec H). ring.
+  - intros Hnz. destruct (to_f64_decimal _ _ _ _ _ Hdec' H') as [_ Hr']. subst r r'.
+    unfold f64_accepts in Ha. destruct (k =? 0) eqn:Ek.
+    + apply N.eqb_eq in Ek. destruct Hnz as [Hk|Hi]; [congruence|].
+      change f64_int_guard with 9007199254740991 in Ha.
+      apply f64_of_Z_opp; [change (2 ^ 64)%Z with 18446744073709551616%Z|]; lia.
+    + destruct Ha as [Hi Hk]. apply frac_value_opp; assumption.
+Qed.
+
+(* the exception is real: "-0" and "0" both give +0.0 *)
+Lemma to_f64_minus_zero_int : to_f64 [45; 48] = Ok (B754_zero 53 1024 false) /\ to_f64 [48] = Ok (B754_zero 53 1024 false).
+Proof. split; vm_compute; reflexivity. Qed.
+
+(* ================================================================== *)
+(* Part F: above 2^53 the result need not be correctly rounded, nor    *)
+(*         even within 1 ulp (witnesses)                               *)
+(* ================================================================== *)
+
+Definition b64_pair (b : binary64) : Z * Z :=
+  match b with
+  | B754_finite _ _ s m e _ => (cond_Zopp s (Zpos m), e)
+  | _ => (0, 0)%Z
+  end.
+
+Lemma B2R_pair b m e : is_finite 53 1024 b = true -> b64_pair b = (m, e) -> B2R64 b = (IZR m * bpow radix2 e)%R.
+Proof.
+  destruct b as [s|s|s pl H|s m0 e0 H]; cbn [is_finite b64_pair B2R]; intros Hf Hp; try discriminate.
+  - injection Hp as <- <-. cbn. lra.
+  - injection Hp as <- <-. reflexivity.
+Qed.
+
+(* "9007199254740993.0": the decimal value 2^53+1 is a tie, RNE gives 2^53, to_f64 gives 2^53+2 *)
+Definition w_tie : bytes := [57;48;48;55;49;57;57;50;53;52;55;52;48;57;57;51;46;48].
+
+Theorem to_f64_tie_witness :
+  exists r, f64_decimal w_tie false 90071992547409930 1 /\ to_f64 w_tie = Ok r /\
+            B2R64 r <> rnd64 (decimal_value false 90071992547409930 1).
+Proof.
+  assert (Hdec : f64_decimal w_tie false 90071992547409930 1).
+  { exact (DecFrac false 57 [48;48;55;49;57;57;50;53;52;55;52;48;57;57;51] [48]
+             (or_introl eq_refl) eq_refl eq_refl ltac:(discriminate)). }
+  assert (Hacc : f64_accepts 90071992547409930 1) by (split; vm_compute; [reflexivity|discriminate]).
+  destruct (to_f64_decimal_conv _ _ _ _ Hdec Hacc) as [r H]. exists r. split; [exact Hdec|]. split; [exact H|].
+  destruct (to_f64_decimal _ _ _ _ _ Hdec H) as [_ Hr]. cbn [N.eqb Pos.eqb] in Hr. subst r.
+  assert (Hi : 90071992547409930 < U64_LIM) by reflexivity. assert (Hk : 1 <= 22) by discriminate.
+  rewrite (B2R_pair _ 4503599627370497 1 (frac_value_finite false _ _ Hi Hk)) by (vm_compute; reflexivity).
+  assert (Hd : decimal_value false 90071992547409930 1 = IZR 9007199254740993).
+  { unfold decimal_value. change (Z.of_N 90071992547409930) with (9007199254740993 * 10)%Z.
+    change (10 ^ Z.of_N 1)%Z with 10%Z. rewrite mult_IZR. field. }
+  rewrite Hd.
+  destruct (f64_of_Z_round 9007199254740993 ltac:(vm_compute; discriminate)) as (Hv & Hf & _).
+  rewrite <- Hv. rewrite (B2R_pair _ 4503599627370496 1 Hf) by (vm_compute; reflexivity).
+  change (bpow radix2 1) with 2%R. lra.
+Qed.
+
+(* "239691543739222246.4": the result is 38.4 = 1.2 ulp below the decimal value (ulp = 32 there) *)
+Definition w_ulp : bytes := [50;51;57;54;57;49;53;52;51;55;51;57;50;50;50;50;52;54;46;52].
+
+Theorem to_f64_more_than_1ulp_witness :
+  exists r, f64_decimal w_ulp false 2396915437392222464 1 /\ (2 ^ 53 <= 2396915437392222464 < U64_LIM) /\
+            to_f64 w_ulp = Ok r /\
+            (ulp64 (decimal_value false 2396915437392222464 1) <
+             Rabs (B2R64 r - decimal_value false 2396915437392222464 1))%R.
+Proof.
+  assert (Hdec : f64_decimal w_ulp false 2396915437392222464 1).
+  { exact (DecFrac false 50 [51;57;54;57;49;53;52;51;55;51;57;50;50;50;50;52;54] [52]
+             (or_introl eq_refl) eq_refl eq_refl ltac:(discriminate)). }
+  assert (Hacc : f64_accepts 2396915437392222464 1) by (split; vm_compute; [reflexivity|discriminate]).
+  destruct (to_f64_decimal_conv _ _ _ _ Hdec Hacc) as [r H]. exists r. split; [exact Hdec|].
+  split; [split; vm_compute; [discriminate|reflexivity]|]. split; [exact H|].
+  destruct (to_f64_decimal _ _ _ _ _ Hdec H) as [_ Hr]. cbn [N.eqb Pos.eqb] in Hr. subst r.
+  assert (Hi : 2396915437392222464 < U64_LIM) by reflexivity. assert (Hk : 1 <= 22) by discriminate.
+  rewrite (B2R_pair _ 7490360741850694 5 (frac_value_finite false _ _ Hi Hk)) by (vm_compute; reflexivity).
+  assert (Hd : decimal_value false 2396915437392222464 1 = (IZR 2396915437392222464 / 10)%R).
+  { unfold decimal_value. change (10 ^ Z.of_N 1)%Z with 10%Z. change (Z.of_N 2396915437392222464) with 2396915437392222464%Z.
+    field. }
+  rewrite Hd. set (t := (IZR 2396915437392222464 / 10)%R).
+  assert (H57 : bpow radix2 57 = IZR (2 ^ 57)) by (rewrite <- (IZR_Zpower radix2 57) by lia; reflexivity).
+  assert (H58 : bpow radix2 58 = IZR (2 ^ 58)) by (rewrite <- (IZR_Zpower radix2 58) by lia; reflexivity).
+  change (2 ^ 57)%Z with 144115188075855872%Z in H57. change (2 ^ 58)%Z with 288230376151711744%Z in H58.
+  assert (Hmag : mag radix2 t = 58%Z :> Z).
+  { apply mag_unique_pos. change (58 - 1)%Z with 57%Z. rewrite H57, H58. unfold t. lra. }
+  assert (Ht : t <> 0%R) by (unfold t; lra).
+  rewrite ulp_neq_0 by exact Ht. unfold cexp. rewrite Hmag.
+  change (fexp64 58) with 5%Z.
+  assert (H5 : bpow radix2 5 = 32%R) by (cbn; lra). rewrite H5.
+  rewrite Rabs_left1 by (unfold t; lra). unfold t. lra.
+Qed.
